@@ -21,6 +21,8 @@ import (
 	"time"
 
 	"github.com/tmpim/casket/casketfile"
+
+	"verifharness/hx"
 )
 
 // the environment the child runs the parser in (placeholders used by the generated configurations)
@@ -196,6 +198,7 @@ func newPool(n int, timeout time.Duration) *pool {
 
 func (p *pool) spawn() (*worker, error) {
 	cmd := exec.Command(os.Args[0], "-test.run=^TestC10Child$", "-test.timeout=0")
+	hx.DieWithParent(cmd)
 	cmd.Env = append(os.Environ(), "VERIF_C10_CHILD=1", "GOMAXPROCS=2", "VERIF_OUT=", "GOMEMLIMIT=1GiB")
 	stdin, err := cmd.StdinPipe()
 	if err != nil {
